@@ -133,19 +133,18 @@ func yamlTranslateNode(node *yaml.Node, depth int) (any, error) {
 			return strconv.ParseBool(node.Value)
 
 		case "!!int":
-			v, err := strconv.ParseInt(node.Value, 10, 32)
-			if err == nil {
+			v, err := strconv.ParseInt(node.Value, 10, 64)
+			if err != nil {
+				return nil, err
+			}
+
+			if v == int64(int(v)) {
 				return int(v), nil
 			}
 
-			return strconv.ParseInt(node.Value, 10, 64)
+			return v, nil
 
 		case "!!float":
-			v, err := strconv.ParseFloat(node.Value, 32)
-			if err == nil {
-				return v, nil
-			}
-
 			return strconv.ParseFloat(node.Value, 64)
 
 		case "!!null":
